@@ -740,6 +740,7 @@ fn unify(batches: Vec<RecordBatch>) -> Result<Vec<RecordBatch>> {
 /// survive as a zero-row batch, or the merge stage cannot even register the
 /// partial table (Q20-shaped TopN over a selective filter hits this).
 pub fn decode_ipc(bytes: &[u8]) -> Result<Vec<RecordBatch>> {
+    check_ipc_framing(bytes)?;
     let reader = arrow::ipc::reader::StreamReader::try_new(std::io::Cursor::new(bytes), None)?;
     let schema = reader.schema();
     let mut out = Vec::new();
@@ -750,6 +751,58 @@ pub fn decode_ipc(bytes: &[u8]) -> Result<Vec<RecordBatch>> {
         out.push(RecordBatch::new_empty(schema));
     }
     Ok(out)
+}
+
+/// Require `bytes` to be a COMPLETE Arrow IPC stream: a sequence of
+/// encapsulated messages (continuation marker, metadata length, metadata, body)
+/// closed by the end-of-stream marker that [`encode_ipc`] always writes.
+///
+/// arrow's `StreamReader` treats end-of-input at a message boundary as a clean
+/// end of stream, so a reply cut exactly there decodes as a shorter, perfectly
+/// valid result — a partial answer. It also trusts the length prefix of each
+/// message when it allocates. Checking the framing first turns a reply that
+/// was cut at ANY byte, and a corrupt length, into an error.
+fn check_ipc_framing(bytes: &[u8]) -> Result<()> {
+    let bad = |what: &str| {
+        QueryError::Execution(format!(
+            "fragment result is not a complete Arrow IPC stream: {what}"
+        ))
+    };
+    let mut pos = 0usize;
+    loop {
+        if bytes.len() - pos < 8 {
+            return Err(bad("it ends before the end-of-stream marker"));
+        }
+        if bytes[pos..pos + 4] != [0xff; 4] {
+            return Err(bad("a message does not start with the continuation marker"));
+        }
+        let meta_len = i32::from_le_bytes([
+            bytes[pos + 4],
+            bytes[pos + 5],
+            bytes[pos + 6],
+            bytes[pos + 7],
+        ]);
+        pos += 8;
+        if meta_len == 0 {
+            return if pos == bytes.len() {
+                Ok(())
+            } else {
+                Err(bad("there are bytes after the end-of-stream marker"))
+            };
+        }
+        if meta_len < 0 || bytes.len() - pos < meta_len as usize {
+            return Err(bad("a message's metadata runs past the end"));
+        }
+        let meta = &bytes[pos..pos + meta_len as usize];
+        let body_len = arrow::ipc::root_as_message(meta)
+            .map_err(|e| bad(&format!("invalid message metadata: {e}")))?
+            .bodyLength();
+        pos += meta_len as usize;
+        if body_len < 0 || ((bytes.len() - pos) as u64) < body_len as u64 {
+            return Err(bad("a message's body runs past the end"));
+        }
+        pos += body_len as usize;
+    }
 }
 
 /// Encode batches as an Arrow IPC stream.
